@@ -130,12 +130,13 @@ def gen_spec(rng, small=False, datatype=None, version=None, names=None, n_events
         'version': version, 'datatype': dt,
         'byteord': rng.choice(['4,3,2,1', '2,1', '1,2,3,4', '1,2']),
         'widths': widths, 'ranges': ranges, 'names': names, 'delim': delim,
-        'mode': 'L', 'nextdata': 0,
+        'mode': 'L', 'nextdata': 0 if rng.chance(0.93) else rng.choice([1, 4096]),
         'offset_width': rng.choice([8, 10, 12]),
         'end_plus_one': rng.chance(0.25),
         'header_data': True if not v3 else rng.chance(0.6),
         'header_analysis': True if not v3 else rng.chance(0.5),
         'blank_analysis': rng.chance(0.3),
+        'numpad': rng.choice([0, 0, 0, 4, 8]),
     }
     spec['text_data_zero'] = bool(v3 and spec['header_data'] and rng.chance(0.3))
     if keywords:
